@@ -308,11 +308,13 @@ fn rand_cr(r: &mut Rng, odd: bool) -> CurrencyAndExchangeRate {
 const SECS: [&str; 8] = ["FOO", "BAR.TO", "X Y", "ÜBER", "foo", "a,b", "q\"q", "-"];
 const ODD_SECS: [&str; 3] = [" FOO", "BAR ", "\tX"];
 
-const MEMO_PARTS: [&str; 20] = [
+const MEMO_PARTS: [&str; 24] = [
     "", "plain", "a, b", "say \"hi\"", "line1\nline2", "cr\rlf\r\n", " lead", "trail ", "é中文",
     "  ", "\t", "x;y", "'single'", "#hash", "\u{a0}nbsp\u{a0}", "\"",
     // backslashes (an escape character in some CSV dialects, not in this one), also next to quotes
     "C:\\dir\\f", "\\", "\\\"q\\\"", "a\\,b",
+    // what a spreadsheet would take for a formula
+    "=SUM(A1)", "+1", "-x", "@cmd",
 ];
 
 pub const AFF_SPELLINGS: [&str; 18] = [
